@@ -140,6 +140,7 @@ loop:
 				b.evbuf = append(b.evbuf, ev)
 			}
 			b.vt("recv", "ev", ev)
+			b.vgate("fanout")
 
 			// Publish to children.
 			for sub := range b.subscriptions {
